@@ -36,6 +36,7 @@ type SimNode struct {
 	mu      sync.Mutex
 	updates []event.Update // drained from the bus, in arrival order
 	merges  []event.MergeComplete
+	subResults []subResult
 	sub     event.Subscription
 	subDone chan struct{}
 
